@@ -61,7 +61,9 @@ def _sym_predicate(ctx, matcher):
             return factors(t.a[1]) + factors(t.a[2])
         return [t]
 
-    for fct in factors(wh[0].args[0]):
+    from .common import factor_ite
+
+    for fct in factors(factor_ite(wh[0].args[0])):
         for alt in resolve_ite_free(fct):
             if tm.is_const(alt, True):
                 continue
